@@ -158,3 +158,12 @@ func (s *ServerDnsListener) VerifForget(c net.Conn) {
 		s.oldConnections[u.UserId] = nil
 	}
 }
+
+// VerifUserQueues: the two queues of a server-side session (the wire-level link drives and observes them directly).
+func VerifUserQueues(c net.Conn) (*util.InQueue, *util.OutQueue) {
+	u := c.(*userConnection)
+	return &u.in, &u.out
+}
+
+// VerifSetUserFrag sets the downstream fragment size of a server-side session (what a set-options exchange does).
+func VerifSetUserFrag(c net.Conn, f uint32) { c.(*userConnection).Serializer.Downstream.FragmentSize = f }
